@@ -304,6 +304,7 @@ func (Sim) Run(raw json.RawMessage, prop string, keep bool) (res simfw.Result) {
 			defer zzsimrt.ResetMapOrder(0)
 			mwh.ServeHTTP(client.Writer(), req)
 		}()
+		callsAtReturn := client.Calls
 		client.Finalise()
 		shape := q.Script.ShapeClass()
 		sig := func(o string) string {
@@ -316,6 +317,16 @@ func (Sim) Run(raw json.RawMessage, prop string, keep bool) (res simfw.Result) {
 				}
 			}
 			return fmt.Sprintf("%s/%s:%s", Prop, o, mode+"/"+shape)
+		}
+		if _, aborted := panicked.(simenv.HandlerAbort); aborted {
+			// the scripted handler crashed: the panic is the handler's, not the middleware's. Nothing of the
+			// response is judged, except that strict mode had not let anything through; the following requests
+			// of the history show whether the crash left anything behind in the middleware.
+			res.Fault("handler_abort")
+			if s.Kind == "validator" && s.Strict && callsAtReturn != callsIn {
+				res.Violate(Prop, "strict-early", sig("strict-early-write"), fmt.Sprintf("req #%d: the handler crashed, and %d calls had already reached the client connection in strict mode", i, callsAtReturn-callsIn))
+			}
+			continue
 		}
 		if panicked != nil {
 			res.Probe("panic")
